@@ -7,7 +7,8 @@ import rvref
 
 PROP = "C01"
 CONSTS = ['ops', 'ctl', 'mem']          # constant tables of the models this property depends on
-RULE = ("single instructions on boundary x random operands for every supported mnemonic (rv1), and generated programs "
+RULE = ("single instructions on boundary x random operands for every supported mnemonic (rv1), every R-type operation and branch "
+        "on the full cross product of a boundary operand set and every I-type operation on operand x immediate (rv-cross), and generated programs "
         "(hazard-complete alphabet over x0,x1,x2,x5,a0,a7 plus wide register use, loads/stores through a base register, "
         "forward/backward branches, JAL/JALR incl. wrap-around targets, every ecall code) run in single-cycle mode with a "
         "snapshot after every step; non-trivial = program executes >=2 instructions without fault or is a single-"
@@ -46,8 +47,45 @@ def rv1_cases(rng, tier):
                 yield Case("rv1", lines, None, {"mode": "single", "prog": prog, "regs": regs, "pokes": pokes})
 
 
+W_QUICK = [0, 1, 0xFFFFFFFF, 0x80000000, 0x7FFFFFFF, 2, 0xFFFFFFFE, 31, 32]
+W_THOROUGH = W_QUICK + [0x80000001, 33, 0x40000000, 5, 0xFFFFFFFB, 0x10000, 0xFFFF, 0xC0000000, 3, 0xFFFFFFE0]
+
+
+def cross_cases(rng, tier, mode="single", hazard=True):
+    """every two-operand operation on the FULL cross product of a boundary operand set (independent of the seed): all
+    R-type operations and all branches per operand pair, all I-type operations per (operand, immediate) pair"""
+    W = W_QUICK if tier == "quick" else W_THOROUGH
+    for a in W:
+        for b in W:
+            prog = [rvgen.tok(op, 6 + k, 1, 5) for k, op in enumerate(rvgen.R_OPS)]
+            for j, op in enumerate(rvgen.B_OPS):
+                prog += [rvgen.tok(op, 0, 1, 5, 8), rvgen.tok("addi", 24 + j, 0, 0, 1)]
+            regs = {1: a, 5: b}
+            lines = rvgen.header(mode, hazard, "-", "-", prog, regs, []) + ["sim.snap"]
+            for _ in range(len(prog) if mode == "single" else 12):
+                lines += ["sim.step", "sim.snap"]
+            lines += ["sim.run 500", "sim.snap"]
+            yield Case("rv-cross", lines, None, {"mode": mode, "hazard": hazard, "prog": prog, "regs": regs, "pokes": [], "d": "-", "i": "-"})
+    imms = [0, 1, -1, 2047, -2048, 31, 32, -32]
+    for a in W:
+        prog = []
+        for op in rvgen.I_OPS:
+            for imm in imms:
+                prog.append(rvgen.tok(op, 6 + len(prog) % 25, 1, 0, imm))
+        for op in rvgen.SH_OPS:
+            for sh in (0, 1, 15, 31):
+                prog.append(rvgen.tok(op, 6 + len(prog) % 25, 1, 0, sh))
+        regs = {1: a}
+        lines = rvgen.header(mode, hazard, "-", "-", prog, regs, []) + ["sim.snap"]
+        for _ in range(len(prog) if mode == "single" else 12):
+            lines += ["sim.step", "sim.snap"]
+        lines += ["sim.run 500", "sim.snap"]
+        yield Case("rv-cross", lines, None, {"mode": mode, "hazard": hazard, "prog": prog, "regs": regs, "pokes": [], "d": "-", "i": "-"})
+
+
 def cases(rng, tier):
     yield from rv1_cases(rng, tier)
+    yield from cross_cases(rng, tier)
     n = 250 if tier == "quick" else 4000
     for i in range(n):
         yield rvgen.sim_case(rng, "single", opts={"wide": i % 3 == 0}, trace=25, run=300, dprob=0.0, iprob=0.0)
